@@ -214,7 +214,7 @@ def check_networks(rep, quick):
     with tlc.scratch("crc-img-") as d:
         img = os.path.join(d, "images.json")
         cfg = tlc.render_cfg(_cfg("MCCrcFn.cfg.tmpl"), {"Kinds": set(mc_kinds)})
-        res = tlc.model_check(SPEC_DIR, "MCCrcFn", cfg, workers=8, timeout=900, env={"IMAGES_FILE": img})
+        res = tlc.model_check(SPEC_DIR, "MCCrcFn", cfg, workers=8, timeout=1800, env={"IMAGES_FILE": img})
         with open(img) as f:
             images = json.load(f)
     rep.add_mc("MCCrcFn: all 2^11 CRC5 inputs + affine bases of 6 wide networks", res,
@@ -446,7 +446,7 @@ def check_units(rep, quick):
     # spec -> code: schedules simulated by TLC from the specification (the unit is chosen by Init)
     sub = {"ModelUnits": set(UNITS), "Alphabet": '"large"'}
     behs = tlc.simulate(SPEC_DIR, "MCCrcUnit", tlc.render_cfg(_cfg("MCCrcUnit_sim.cfg.tmpl"), sub),
-                        num=18 if quick else 200, depth=14 if quick else 30, seed=rep.seed * 11 + 3)
+                        num=18 if quick else 200, depth=14 if quick else 30, seed=rep.seed * 11 + 3, timeout=1800)
     jobs = {u: [] for u in UNITS}
     for b in behs:
         unit = b[0][1]["unit"]
